@@ -241,15 +241,18 @@ Section RejectP.
     erewrite bind_eq by (apply p_punct_eq; rewrite Ht; exact Hp). unfold skip2. rewrite Ht. reflexivity.
   Qed.
 
-  (* in a set pattern one comma may follow a leading `..` *)
+  (* in a set pattern `..` is the rest marker only when `,` or nothing follows; one comma may follow a leading `..` *)
+  Lemma peek_rest_dots ts : peek_rest ts = true -> peek_punct ".." ts = true.
+  Proof. unfold peek_rest. intros H. apply andb_true_iff in H as [H _]. apply andb_true_iff in H as [H _]. exact H. Qed.
+
   Lemma set_stops_at_rest f sc st :
-    toks st <> [] -> peek_punct ".." (toks st) = true ->
+    toks st <> [] -> peek_rest (toks st) = true ->
     exists left, (left = skipn 2 (toks st) \/ left = skipn 1 (skipn 2 (toks st))) /\
       p_set_elems (S f) sc st = POk ([], true) {| toks := left; ctr := ctr st; unx := unx st |}.
   Proof.
-    intros Hne Hp. cbn [Parser.p_set_elems].
+    intros Hne Hr. pose proof (peek_rest_dots _ Hr) as Hp. cbn [Parser.p_set_elems].
     erewrite bind_eq by apply is_empty_eq. destruct (toks st) eqn:Ht; [contradiction|].
-    erewrite bind_eq by apply peek_eq. rewrite Ht, Hp.
+    erewrite bind_eq by apply peek_eq. rewrite Ht, Hr.
     erewrite bind_eq by (apply p_punct_eq; rewrite Ht; exact Hp).
     erewrite bind_eq by apply peek_eq. cbn [toks String.length].
     destruct (peek_punct "," (skipn 2 (t :: l))) eqn:Hc.
@@ -258,6 +261,14 @@ Section RejectP.
       2:{ rewrite Ht, Hc. unfold bind. rewrite p_punct_eq by (cbn [toks]; exact Hc). reflexivity. }
       cbn [toks ctr unx String.length ret]. reflexivity.
     - exists (skipn 2 (t :: l)). split; [left; reflexivity|]. rewrite Ht, Hc. reflexivity.
+  Qed.
+
+  (* ... and by the definition of the marker, what is left after it (and that one comma) is nothing, or starts with a
+     token the loop never consumes: a set pattern whose `..` is not last is rejected *)
+  Lemma rest_marker_is_followed_by_comma_or_end ts :
+    peek_rest ts = true -> skipn 2 ts = [] \/ peek_punct "," (skipn 2 ts) = true.
+  Proof.
+    unfold peek_rest. intros H. apply andb_true_iff in H as [_ H]. destruct (skipn 2 ts); [left; reflexivity|right; exact H].
   Qed.
 
   (* 3. direct rejections *)
